@@ -179,21 +179,23 @@ func (m *Machine) query(q *Term) (Result, map[string]uint64) {
 	}
 	var model map[string]uint64
 	var r Result
-	// fast incremental attempt (short timeout), then a one-shot run with the full timeout
-	if okModel {
-		r, model = m.solver.CheckWithModel(q, names, sorts)
-	} else {
-		r = m.solver.CheckWith(q)
+	// arithmetic-heavy slices (mul/div/rem) go to the one-shot solver (z3's full
+	// bit-blasting pipeline, wall-clock limited); the rest to the incremental solver
+	hard := termHard(q)
+	for _, c := range sliceTerms {
+		hard = hard || termHard(c)
 	}
-	if r == Unknown && m.oneshot != nil && m.solver.Errors == 0 {
-		m.solver.Unknowns--
-		m.solver.Retried++
+	if hard && m.oneshot != nil {
 		if !okModel {
 			names, sorts = nil, nil
 		} else if names == nil {
 			names = []string{}
 		}
 		r, model = m.oneshot.OneShot(append(sliceTerms, q), names, sorts)
+	} else if okModel {
+		r, model = m.solver.CheckWithModel(q, names, sorts)
+	} else {
+		r = m.solver.CheckWith(q)
 	}
 	if r != Unknown {
 		qcache.Store(key, qres{r, model})
@@ -213,4 +215,24 @@ func mergeModel(base, over map[string]uint64) map[string]uint64 {
 		out[k] = v
 	}
 	return out
+}
+
+// termHard: does t contain multiplication / division / remainder (memoised)?
+func termHard(t *Term) bool {
+	if t.hardDone {
+		return t.hard
+	}
+	h := false
+	switch t.op {
+	case OMul, OUDiv, OURem, OSDiv, OSRem:
+		h = true
+	}
+	for _, a := range t.args {
+		if h {
+			break
+		}
+		h = termHard(a)
+	}
+	t.hard, t.hardDone = h, true
+	return h
 }
